@@ -105,6 +105,8 @@ class Check:
         # arguments, the mask and the injected functions, not on history, allocator mood or the signedness of char
         if ex.name.endswith(("~p", "~u")) or not any(l.split(" ", 1)[0] in gen.API_OPS for l in ex.lines):
             return
+        if ex.variant == "plain" and len(getattr(self, "mt_candidates", [])) < 400:
+            self.mt_candidates = getattr(self, "mt_candidates", []) + [ex]
         import random
         import zlib
         h = zlib.crc32(("%d/%s" % (self.seed, ex.name)).encode())
